@@ -79,6 +79,7 @@ type event map[string]any
 
 type runner struct {
 	sc   script
+	sid  int
 	unit time.Duration
 
 	mu     sync.Mutex
@@ -205,6 +206,19 @@ func (r *runner) push(ctx context.Context, ld plog.Logs) error {
 	default:
 		panic("unknown outcome kind " + o.Kind)
 	}
+	// The classification of an error (permanent / throttle / partial failure carrying the remainder) is made with errors.As,
+	// i.e. over the whole error TREE: the same outcome is handed back in different shapes -- bare, wrapped with %w, joined with
+	// an unrelated error (errors.Join), one of two %w operands.  The meaning, and so the specified behaviour, is the same.
+	if err != nil && (kind == "permanent" || kind == "throttle" || kind == "partial") {
+		switch (r.sid + n) % 4 {
+		case 1:
+			err = fmt.Errorf("backend answered: %w", err)
+		case 2:
+			err = errors.Join(errors.New("another backend of the same exporter failed as well"), err)
+		case 3:
+			err = fmt.Errorf("%w; %w", errors.New("first operand"), err)
+		}
+	}
 	thr := int64(0)
 	if kind == "throttle" {
 		thr = int64(time.Duration(o.Thr) * r.unit / time.Microsecond)
@@ -268,7 +282,7 @@ func (c core) Write(_ zapcore.Entry, fields []zapcore.Field) error {
 var typ = component.MustNewType("verif")
 
 func runScript(sid int, sc script, unit time.Duration) ([]event, error) {
-	r := &runner{sc: sc, unit: unit, stop0: -1, stop1: -1, cnl0: -1, cnl1: -1}
+	r := &runner{sc: sc, sid: sid, unit: unit, stop0: -1, stop1: -1, cnl0: -1, cnl1: -1}
 	us := func(u int64) int64 { return int64(time.Duration(u) * unit / time.Microsecond) }
 	rcfg := configretry.BackOffConfig{
 		Enabled:             sc.Cfg.Enabled,
